@@ -604,12 +604,16 @@ def rawAdd {α : Type} (sameAdd : α → α → Bool) (l : List (Option α)) (h 
   | some true => some (l, false)
   | some false => some (l ++ [some h], true)
 
+/-- the entries `remove(ip)` copies: those whose key is not `ip` -/
+def keepEntry {α κ : Type} [BEq κ] (keyOf : α → κ) (ip : κ) : Option α → Bool
+  | some x => !(keyOf x == ip)
+  | none => true
+
 /-- `cowHostList.remove(ip)` -/
 def rawRemove {α κ : Type} [BEq κ] (keyOf : α → κ) (l : List (Option α)) (ip : κ) : Option (List (Option α) × Bool) :=
   if l.any (·.isNone) then none else
-  let kept := l.filter (fun e => match e with | some x => !(keyOf x == ip) | none => true)
-  if kept.length == l.length then some (l, false)
-  else some (kept ++ List.replicate (l.length - 1 - kept.length) none, true)
+  if (l.filter (keepEntry keyOf ip)).length == l.length then some (l, false)
+  else some (l.filter (keepEntry keyOf ip) ++ List.replicate (l.length - 1 - (l.filter (keepEntry keyOf ip)).length) none, true)
 
 /-- the seeded variant C11-9 (regression, `Proofs/C11.lean`): a node is (address, port); `Equal` compares both,
 `remove` still compares the address -/
